@@ -287,6 +287,23 @@ def m_unwrap(I, st, args, dest_ty, fn, b, line, fref):
 
 def m_unwrap_or(I, st, args, dest_ty, *r):
     v, dflt = args
+    inner = dest_ty[1:].strip() if dest_ty.startswith("&") else dest_ty
+    if dest_ty.startswith("&") and M.int_type(inner):
+        # Option<&int>::unwrap_or(&int): a reference to an integer is modelled by the integer itself
+        from absint import vjoin
+        d = v.deps() | I.deep_deps(st, dflt)
+        pay = v.alts[1][0] if v.kind == "enum" and v.alts and v.alts.get(1) else None
+        pay = _deref(I, st, pay) if pay is not None else None
+        if pay is None or pay.kind != "int":
+            pay = IntV.top(inner, d, exact=True)
+        dv = _deref(I, st, dflt) if dflt.kind == "ref" else dflt
+        if dv.kind != "int":
+            dv = IntV.top(inner, I.deep_deps(st, dflt))
+        if v.kind == "enum" and v.variant == 1:
+            return pay
+        if v.kind == "enum" and v.variant == 0:
+            return dv
+        return vjoin(pay, dv, v.ddeps if v.kind == "enum" else frozenset())
     if v.kind == "enum" and v.variant is None and v.alts and v.alts.get(1):
         from absint import vjoin
         return vjoin(v.alts[1][0], dflt, v.ddeps)
